@@ -236,7 +236,17 @@ func (ev *Evaluator) Call(fn *ssa.Function, args []Val, free []Val, st *State) V
 			header := false
 			var inPreds []*ssa.BasicBlock
 			if hmode == 2 {
-				cond[b] = ui.cond
+				// the iteration is reached under the conditions of the back edges taken (they are
+				// stronger than the previous header's condition when an iteration can also leave
+				// through a symbolic exit)
+				hc := ui.cond
+				if len(ui.conds) > 0 {
+					hc = ui.conds[0]
+					for _, c := range ui.conds[1:] {
+						hc = cOr(hc, c)
+					}
+				}
+				cond[b] = hc
 				rel := stripCommon(ui.conds)
 				cur = ui.states[0].clone()
 				for i := 1; i < len(ui.states); i++ {
@@ -522,11 +532,14 @@ func (ev *Evaluator) Call(fn *ssa.Function, args []Val, free []Val, st *State) V
 								// collected and handed to the return block when the loop is done.
 								e := edge{b, su}
 								if acc, has := exitAcc[e]; has {
+									// the memory the return leaves behind differs from iteration to
+									// iteration: gate it on which iteration left
+									exitSt[e] = iteState(ec, outSt[b], exitSt[e])
 									exitAcc[e] = cOr(acc, ec)
 								} else {
 									exitAcc[e] = ec
+									exitSt[e] = outSt[b]
 								}
-								exitSt[e] = outSt[b]
 								continue
 							}
 							exitTaken = true
@@ -565,13 +578,16 @@ func (ev *Evaluator) Call(fn *ssa.Function, args []Val, free []Val, st *State) V
 			}
 			// exits collected from the iterations that also continued
 			for e, c := range exitAcc {
+				st := exitSt[e]
 				if cur, has := econd[e]; has && !cur.IsZero() {
+					// the last iteration left through the same edge
+					if s2, ok := outSt[e.from]; ok {
+						st = iteState(cur, s2, st)
+					}
 					c = cOr(c, cur)
 				}
 				econd[e] = c
-				if _, has := outSt[e.from]; !has {
-					outSt[e.from] = exitSt[e]
-				}
+				outSt[e.from] = st
 			}
 			ev.ctx = ctxS
 			unrolled[h] = true
